@@ -1106,8 +1106,8 @@ def _function_tail(blk) -> tuple:
     if not _ends_in_exit(blk):
         blk.append(("ret", K_NONE))
     if blk[-1] == ("ret", K_NONE):
-        blk = _merge_guard_chain(_tail_returns(blk))
-    return _strip_tail_returns(tuple(blk))
+        blk = _tail_returns(blk)
+    return _strip_tail_returns(tuple(_merge_guard_chain(blk)))
 
 
 def _tail_returns(stmts: list) -> list:
@@ -1189,6 +1189,9 @@ def _renorm_local(x: S) -> S:
         return mk_or([_truth(y) for y in x[1]])
     if t == "comp" and len(x) == 4:
         return ("comp", x[1], x[2], tuple((g[0], g[1], _truth(g[2])) for g in x[3]))
+    if t == "cmp" and len(x) == 4 and x[1] in ("is", "isnot") and K_NONE in (x[2], x[3]):
+        from .peval import fold as _fold           # (T if c else None) is None  ==  not c
+        return _fold(x)
     if t == "c" and len(x) == 4 and isinstance(x[1], tuple):
         fn, args, kwargs = x[1], x[2], x[3]
         if fn[:1] == ("g",) and fn[1] in _CONSUMERS and len(args) >= 1 and isinstance(args[0], tuple) and args[0][:2] == ("comp", "list"):
@@ -1199,6 +1202,40 @@ def _renorm_local(x: S) -> S:
                 and len(args[0][2]) == 2 and isinstance(args[0][2][0], tuple) and args[0][2][0][:2] == ("lambda", 1):
             return ("comp", "list", (args[0][2][0][2],), ((("b", 1, 0), args[0][2][1], K_TRUE),))
     return x
+
+
+def _guard_knowledge(block: tuple) -> tuple:
+    """what a guard has established is used in the statements right after it: after ``if not c: return`` a value written
+    ``(e if c else None)`` is ``e``.  Only the run of plain value statements (assignments of locals, nested conditionals on values,
+    the return) that follows the guard is read that way -- nothing that could change what the test looked at comes in between."""
+    from .peval import assume
+
+    def pure_run(stmts):
+        n = 0
+        for st in stmts:
+            if isinstance(st, tuple) and st and (st[0] in ("ret", "assert") or (st[0] == "set" and len(st) == 3 and isinstance(st[1], tuple) and st[1][:1] == ("v",))) \
+                    and not _has_effectful_call(st):
+                n += 1
+            else:
+                break
+        return n
+
+    def rec(blk):
+        out = list(blk)
+        for i, st in enumerate(out):
+            if isinstance(st, tuple) and st:
+                if st[0] == "if" and len(st) == 4:
+                    out[i] = st = ("if", st[1], rec(st[2]), rec(st[3]))
+                    if st[3] == () and _ends_in_exit(st[2]) and not _has_effectful_call(st[1]) and atoms_of(tuple(out[i + 1:]), lambda y: y[0] == "ite"):
+                        n = pure_run(out[i + 1:])
+                        if n:
+                            out[i + 1:i + 1 + n] = list(assume(tuple(out[i + 1:i + 1 + n]), st[1], False))
+                elif st[0] == "for" and len(st) == 5:
+                    out[i] = ("for", st[1], st[2], rec(st[3]), rec(st[4]))
+                elif st[0] == "while" and len(st) == 4:
+                    out[i] = ("while", st[1], rec(st[2]), rec(st[3]))
+        return tuple(out)
+    return rec(block)
 
 
 def _flat_if(st: S) -> S:
@@ -1862,17 +1899,26 @@ class Normalizer:
         # 1. locals that only name a value are looked through first (so that it does not matter whether a comprehension sat in a
         #    local of its own), 2. then the comprehensions that are assigned / returned / put into a record become collecting loops,
         #    3. and what that uncovers is looked through again
-        block = shape_passes(_fuse_comps(raw_block))
+        block = shape_passes(_fuse_comps(_renorm_local(raw_block)))
         block = _swap_via_temp(block)
         block, aliases = _store_aliases(block)
         if aliases:
             self.rounds.append(aliases)
-        block = look_through(block)
+        block = _guard_knowledge(look_through(block))
         unfolded = _unfold_list_comps(block, fresh)
         if unfolded != block:
             block = look_through(shape_passes(unfolded))
         if function_body:
             block = _function_tail(block)
+            # a predicate written as guards ('if not a: return False' ; 'return b') is the one expression it computes ('a and b')
+            if len(block) > 1 and all(isinstance(st, tuple) and st and st[0] in ("if", "ret") for st in block):
+                from .peval import value_expr, _is_boolean
+                try:
+                    v = value_expr(block)
+                except Exception:
+                    v = None
+                if v is not None and _is_boolean(v) and v[0] != "ite":
+                    block = (("ret", v),)
         mapping: dict = {}
 
         def rec(x):
@@ -1892,8 +1938,7 @@ class Normalizer:
     def apply(self, s: S) -> S:
         for defs in self.rounds:
             s = deref(s, defs)
-        if self.rounds:
-            s = _renorm_local(s)
+        s = _renorm_local(s)
         return s if self.identity else Sigma(raw_subst=self.mapping).apply(s)
 
 
